@@ -1,4 +1,4 @@
-HOOK_COMMITS = ["94172af", "dd1b337"]
+HOOK_COMMITS = ["94172af", "dd1b337", "5847cdf"]
 NOTES = ("Model-based verification with explicit TLA+ specifications (specs/), TLC, and a Go conformance harness (harness/). "
          "Exit 2 of a check = infrastructure trouble, never a verdict. See DESIGN.md.")
 NOT_APPLICABLE = {}
@@ -17,7 +17,7 @@ CHECKS = {
     ),
     "C14": dict(
         level="model_checking",
-        technique="TLA+ goroutine-level model (Server.tla) of SpawnJob/CombineJobs and net/http ListenAndServe/Shutdown model-checked with TLC (safety + termination, mutants refuted); TLC-simulated behaviours replayed as gated schedules on the real server.Run; aligned stress for timings inside net/http",
+        technique="TLA+ goroutine-level model (Server.tla) of SpawnJob/CombineJobs and net/http ListenAndServe/Shutdown model-checked with TLC (safety + termination, mutants refuted); TLC-simulated behaviours replayed as gated schedules on the real server.Run; aligned stress for timings inside net/http; hook traces of the real `gnark-mbu start` process under SIGINT validated by TLC against TraceJob.tla (rejections are violations when a property-level observation fails)",
         text="All interleavings of stop vs. both servers' start-up steps and 1..2 in-flight requests are model-checked (ListenerReleased, RebindOk, Drain, Terminates). Behaviours of ServerGen.tla (run-to-gate semantics) drive the real code with every verif hook as a gate: settled goroutine positions, responses, AwaitStop return and re-bind of both addresses are compared with the spec at every decision. The ListenAndServe/Shutdown race that no hook can gate is exercised by aligned start/stop cycles on the same addresses.",
         note="Trusted: the transcription of net/http's ListenAndServe/Shutdown steps; schedules inside net/http are sampled by stress, not enumerated. SIGINT delivery before signal.Notify is outside the property.",
     ),
@@ -29,13 +29,13 @@ CHECKS = {
     ),
     "C06": dict(
         level="model_checking",
-        technique="TLA+ ScanBit state machine (ReducedCheck.tla) = the loop of ReducedModRCheck; TLC covers ALL digit vectors for BN254/256 by state merging and every vector for tiny primes; per-path-class and per-vector replay into the Go gadgets incl. R1CS with the bits.NBits hint replaced",
+        technique="TLA+ ScanBit state machine (ReducedCheck.tla) = the loop of ReducedModRCheck; TLC covers ALL digit vectors for BN254/256 by state merging and every vector for tiny primes; per-path-class and per-vector replay into the Go gadgets incl. R1CS with the bits.NBits hint replaced; mixed-field sessions in one process; TLAPS proof of the scan invariant for arbitrary width and modulus (ReducedCheckProof.tla); extracted gate list compared with the spec's scan",
         text="Model level: exhaustive for the production parameters (all boolean and non-boolean digit vectors of length 256 against the BN254 modulus; invariant: accepted iff boolean and below the modulus; three mutants refuted) and for all vectors over small primes with the ghost comparison tied to integer values, big-endian emission and recomposition. Code level: one vector per path class of the BN254 scan graph and every vector over tiny fields are replayed into ReducedModRCheck, ToReducedBigEndian and FromBinaryBigEndian (test engine; compiled R1CS over 47 and BN254 with prover-chosen digits).",
         note="Trusted: gnark's ToBinary semantics (hint + booleanity + recomposition), observed through the engine and the solver with a replaced hint. At BN254 the code is exercised per path class (1529 vectors), not on all 2^256.",
     ),
     "C08": dict(
         level="model_checking",
-        technique="TLA+ specification of the on-chain packing and of the circuit's bit path (Packing.tla) with the executable Keccak.tla as oracle; TLC-chosen value-class vectors replayed into ComputeInputHash*, and documents produced by the code (gen-test-params CLI sweep, random valid batches with short roots) validated against the spec and against the real circuit",
+        technique="TLA+ specification of the on-chain packing and of the circuit's bit path (Packing.tla) with the executable Keccak.tla as oracle; TLC-chosen value-class vectors replayed into ComputeInputHash*, and documents produced by the code (gen-test-params CLI sweep, random valid batches with short roots) validated against the spec and against the real circuit; sessions in one process with out-of-range calls interleaved and concurrent callers",
         text="PackingAgrees/HashAgrees: the bit string the circuit hashes is abi.encodePacked of the fields and the recomposed digest is keccak mod r, for every class vector TLC enumerates. Leg A: helpers must return the spec hash for every byte-length class of roots/commitments, index class and batch size (one- and two-block inputs). Leg B: every document the code produces must carry the spec's hash and be accepted by the real circuit.",
         note="Trusted: Keccak.tla (KATs + per-case cross-check with x/crypto); gnark test engine for circuit acceptance. Value classes, not all field elements.",
     ),
@@ -47,13 +47,13 @@ CHECKS = {
     ),
     "C01": dict(
         level="model_checking",
-        technique="TLA+ model MTB.tla (circuit round relations with prover-chosen digits next to the abstract batch meaning, adversary choosing every input incl. alias-consistent data) model-checked by TLC with the assertion accept <=> valid at every End; stratified behaviours replayed into the real insertion circuit (test engine, compiled R1CS, dishonest hint tables)",
+        technique="TLA+ model MTB.tla (circuit round relations with prover-chosen digits next to the abstract batch meaning, adversary choosing every input incl. alias-consistent data) model-checked by TLC with the assertion accept <=> valid at every End; stratified behaviours replayed into the real insertion circuit (test engine, compiled R1CS, dishonest hint tables); production-depth model MTBBig.tla (depth 31/32, real 2^32 and r bounds) replayed likewise; GadgetTiny.tla: the gadget relation on every tuple over tiny fields and its constraint-level form with the prover-chosen wires explicit (HintSoundComplete, mutants refuted), bound to the code by trying every bit-hint output on the compiled R1CS over F_47",
         text="Design level: exhaustive over all adversarial insertion inputs (start classes incl. past the end, >= 2^IdxBits, wrap-around; commitments; genuine/stale/corrupted/reused/alias-consistent paths; post-root candidates) on all trees reachable by insertion and deletion batches at depth <= 3, batch <= 3; four circuit mutants refuted. Code level: every deviation class the model distinguishes (honest prefix + one batch with <= k independent deviations) is concretised over BN254 and presented to prover.InsertionMbuCircuit; the verdict of the test engine, of the R1CS solver and of the solver with dishonest hints must be the spec's.",
         note="Trusted: Poseidon collision-freeness (symbolic hash), the tiny-field abstraction of index arithmetic (P = 47, 5 index bits), gnark's builder/solver, Groth16 soundness. Replay dimensions are (1,1)..(3,2); depth 32 is covered by C12/C07 builds, not by adversarial replay.",
     ),
     "C02": dict(
         level="model_checking",
-        technique="same MTB.tla model for the deletion circuit (Depth+1 digits, skip flag, IsZero-or-skip, Select) with padding, duplicates, already-empty leaves and too-high indices; TLC assertion accept <=> valid; stratified behaviours replayed into the real deletion circuit (engine, R1CS, dishonest bit/inverse hints)",
+        technique="same MTB.tla model for the deletion circuit (Depth+1 digits, skip flag, IsZero-or-skip, Select) with padding, duplicates, already-empty leaves and too-high indices; TLC assertion accept <=> valid; stratified behaviours replayed into the real deletion circuit (engine, R1CS, dishonest bit/inverse hints); MTBBig.tla at depth 31 and GadgetTiny.tla (every tuple over tiny fields; constraint-level HintSoundComplete with explicit digits and is-zero inverse, every hint output tried on the compiled R1CS over F_47)",
         text="Design level: exhaustive over index vectors (distinct, duplicated, already empty, padding, >= 2^(Depth+1), 2^IdxBits-1, wrapping), presented values, paths and arbitrary padding-slot contents on all reachable trees; five mutants refuted (membership dropped, Select swapped, skip bit misplaced, one digit too many, final check dropped). Code level: as C01 with prover.DeletionMbuCircuit, including replaced InvZero hints.",
         note="As C01. The IsZero gadget is modelled by its forced value; its two-constraint relation is exercised through the R1CS solver with a lying inverse hint.",
     ),
@@ -65,7 +65,7 @@ CHECKS = {
     ),
     "C20": dict(
         level="model_checking",
-        technique="Server.tla metrics registers (wrapper layering inc; handler; count; dec) model-checked for GaugeExact/Monotone/Lag/Conservation (bare-mux mutant refuted); gated replay compares the real /metrics with the spec's registers at every settled decision point; un-gated load with scrapes validated by TraceServer.tla with explicit lag",
+        technique="Server.tla metrics registers (wrapper layering inc; handler; count; dec) model-checked for GaugeExact/Monotone/Lag/Conservation (bare-mux mutant refuted); gated replay compares the real /metrics with the spec's registers at every settled decision point; un-gated load with scrapes validated by TraceServer.tla with explicit lag; one request per run takes production-scale time (held 12 s / 65 s after proving)",
         text="At the model level every interleaving of 2..3 requests over methods GET/POST/PUT/FOO and outcomes is checked. In gated replay, with k requests held at TLC-chosen handler gates the scrape must show in-flight = k and exactly the spec's per-(method, code) totals, and after each release the totals must advance as the spec says (polling up to the settle timeout, since promhttp counts after the handler returned). Un-gated sequential and concurrent mixes are recorded with scrapes during and after load; TraceServer.tla rejects overshoot, regress, unknown labels, a failed scrape and non-convergence of the final scrape to the responses sent with a zero gauge.",
         note="Trusted: the text exposition format of client_golang; convergence timeout 10 s. Histogram/summary collectors (duration, sizes) are not modelled.",
     ),
@@ -83,19 +83,19 @@ CHECKS = {
     ),
     "C11": dict(
         level="model_checking",
-        technique="TLA+ file-system machine KeysFile.tla (write in either format, read, convert-to-raw, crash) model-checked for RoundTrip over all operation sequences; TLC-simulated sequences executed in one process on several real Groth16 systems with byte-exact comparison and cross prove/verify",
+        technique="TLA+ file-system machine KeysFile.tla (write in either format, read, convert-to-raw, crash) model-checked for RoundTrip over all operation sequences; TLC-simulated sequences executed in one process on several real Groth16 systems with byte-exact comparison and cross prove/verify; conversions (incl. in place, input = output) through the real `gnark-mbu convert-to-raw`",
         text="Model level: every sequence of <= 4..5 write/read/convert operations over two files and 2..4 systems satisfies RoundTrip and LastReadFaithful (reader mutants refuted). Code level: simulated sequences plus four fixed ones (two different systems written before a read; each format; conversion) run on real insertion (2,1) and deletion (1,2) systems — depth != batch so a swap is visible; after every read/convert the loaded system must equal the system the spec says (depth, batch, byte-exact pk/vk/cs) and the original/reloaded pair must verify each other's proofs. The thorough tier goes through the `convert-to-raw` command and adds independent setups of equal dimensions.",
         note="Trusted: byte-exact re-serialisation as the notion of key equality; Groth16 verify. Dimensions are small ((2,1), (1,2), (3,2)).",
     ),
     "C15": dict(
         level="fault_enumeration",
-        technique="KeysFile.tla Write;Crash(cut);Read enumerated by TLC for EVERY byte offset of files written by the code (synthetic systems) and for offset classes of real 50-85 MB files, with the actual section lengths; each cut replayed into UnsafeReadFrom under recover + watchdog, ReadSystemFromFile and the CLI commands",
+        technique="KeysFile.tla Write;Crash(cut);Read enumerated by TLC for EVERY byte offset of files written by the code (synthetic systems) and for offset classes of real 50-85 MB files, with the actual section lengths; each cut replayed into UnsafeReadFrom under recover + watchdog, ReadSystemFromFile and the CLI commands; I/O block boundaries are a cut class",
         text="Fault = the file ends at offset `cut`. For two synthetic Groth16 systems wrapped in prover.ProvingSystem every offset 0..len-1 of both formats is read (exhaustive); for real (1,1) systems the classes of KeysFile.tla (header bytes, +-64 around each section boundary, strides through the proving key and the constraint system, the tail). Every prefix must yield an error — no load, no panic, no hang; `start|prove|verify|convert-to-raw` on truncated files must exit non-zero. The reader mutants 'EOF of the last section ignored' and 'stop after the verifying key' are refuted at the model level.",
         note="Real files are covered by offset classes (about 600 per format in the thorough tier), not every one of 8*10^7 offsets; internal sub-structure of the proving key is reached by strides, not by name.",
     ),
     "C03": dict(
         level="model_checking",
-        technique="Packing.tla (on-chain abi.encodePacked vs the circuit's bit path, executable Keccak.tla as oracle) model-checked for PackingAgrees / HashAgrees / BytesInjective / canonical field encodings; per code-produced valid witness TLC computes the hash, the hashes of all single-field perturbations and of every forged encoding v + k*r, which the real circuit must accept resp. reject (engine, R1CS, R1CS with the bit-decomposition hint replaced)",
+        technique="Packing.tla (on-chain abi.encodePacked vs the circuit's bit path, executable Keccak.tla as oracle) model-checked for PackingAgrees / HashAgrees / BytesInjective / canonical field encodings; per code-produced valid witness TLC computes the hash, the hashes of all single-field perturbations and of every forged encoding v + k*r, which the real circuit must accept resp. reject (engine, R1CS, R1CS with the bit-decomposition hint replaced); witnesses span one to three and more Keccak blocks",
         text="Design level: the bit string fed to Keccak is the byte string the verifier hashes for batch sizes 0..8 in both modes and for all witness values; the packing is injective; only representatives below r (and indices below 2^32) are acceptable (ReducedCheck.tla gives the exhaustive argument). Code level: for valid witnesses with one- and two-block hash inputs, value classes 0/1/r-1/leading-zero values and extreme indices, the circuit accepts exactly the spec's hash (any representative) and rejects hash+-1, the hash of every batch differing in one field, swapped roots, an index + 2^32, and — the attack the property names — the hash of the forged bytes of v + k*r with the prover's digit hint replaced accordingly.",
         note="Trusted: Keccak collision-freeness; Keccak.tla (KATs, x/crypto cross-check in C04/C08). Perturbations are +1 per field and the pre/post swap, not all alternative values.",
     ),
